@@ -2,7 +2,7 @@
 """Regenerate MANIFEST.json from harness/registry.py (run from /verif)."""
 import json, os, sys
 sys.path.insert(0, os.path.dirname(os.path.dirname(os.path.abspath(__file__))))
-sys.path.insert(0, "/repo")
+sys.path.insert(0, os.environ.get("KODA_REPO", "/repo"))
 from harness import registry
 
 props = [json.loads(l) for l in open("properties.jsonl")]
